@@ -224,6 +224,34 @@ class World:
 
         self._patched.append((fpm.FrameParser, 'receive_data', orig_receive))
         fpm.FrameParser.receive_data = guarded_receive
+        # deterministic termination guard for the decoding of extension metadata (composite metadata and everything it
+        # dispatches to: routing tags, authentication, mime types): a budget of executed source lines per parse() call
+        import sys
+        import rsocket.extensions.composite_metadata as cmm
+        orig_cm_parse = cmm.CompositeMetadata.parse
+        budget = 200_000
+
+        def guarded_cm_parse(cm, metadata):
+            count = [0]
+
+            def tracer(frame, event, arg):
+                if event == 'line':
+                    count[0] += 1
+                    if count[0] > budget:
+                        world.stats['metadata_guard'] = world.stats.get('metadata_guard', 0) + 1
+                        world.rec('guard', what='metadata_parse_nontermination', input_len=len(bytes(metadata or b'')))
+                        raise RuntimeError('sim: CompositeMetadata.parse does not terminate on this input')
+                return tracer
+
+            old = sys.gettrace()
+            sys.settrace(tracer)
+            try:
+                return orig_cm_parse(cm, metadata)
+            finally:
+                sys.settrace(old)
+
+        self._patched.append((cmm.CompositeMetadata, 'parse', orig_cm_parse))
+        cmm.CompositeMetadata.parse = guarded_cm_parse
         asyncio.set_event_loop(self.loop)
         gc.collect()
         gc.disable()
